@@ -207,7 +207,8 @@ def run(ctx):
     #      tagging, transition, append, conditional put / delete) started while a put / delete of that key is queued;
     #      prefix: bucket, object and a pending multipart upload of the key with one part
     sy, _ = gen_pairs(ctx, ["PutObject", "DeleteObject"] + SYNC_OPS, 1, 0,
-                      extra={"PairMode": '"write-sync"', "Prefix": '"upload"', "MaxFailPolls": "1"})
+                      extra={"PairMode": '"write-sync"', "Prefix": '"upload"', "MaxFailPolls": "1",
+                             "Blobs": ctx.pick('{"c2"}', '{"c1", "c2"}')})
     per = {}
     for p in sy:
         for k in started_with_pending(p, lambda c: call_key(c) if call_key(c) in SYNC_KEYS else None):
